@@ -51,11 +51,18 @@ def observe(ctx, data, opts=pk.OPTS, want=None):
 def compare_keys(ctx, what, data, html, dup, i, m, keys, extra=None):
     """correspondence on a projection; an implementation exception where the model returns is charged to C13 only"""
     bad = False
+    if i.get('<reread>'):
+        bad = True
+        ctx.fail('an attribute read a second time on the same object returns a different value', case_payload(data, html=html, dup=dup, **(extra or {})), i['<reread>'])
     for k in keys:
         a, b = i.get(k), m.get(k)
         if a is None or b is None: continue
         if 'err' in a and 'ok' in b and ctx.prop != 'C13':
-            ctx.skipped_raises += 1; continue
+            # whether the raise violates THIS property is the property's checker's business; the tie is broken in any case:
+            # the model raises wherever the code at the pinned commit raises
+            ctx.skipped_raises += 1; bad = True
+            ctx.diff(f'{what}: {k}: the implementation raises where the model returns', case_payload(data, html=html, dup=dup, **(extra or {})), a, 'returns', path=k)
+            break
         d = first_diff(a, b)
         if d:
             bad = True
